@@ -244,10 +244,15 @@ impl McnkChunk {
             None
         };
 
-        // MCMT has no dedicated offset in MCNK header
-        // Found via chunk discovery in _tex.adt files (Cataclysm+)
-        // TODO: Add split file support with chunk discovery
-        let materials = None;
+        // MCMT has no dedicated offset in MCNK header: located by its magic
+        let materials = {
+            let data = scan_for_subchunk(reader, mcnk_start_offset, mcnk_size, ChunkId::MCMT)?;
+            if !data.is_empty() {
+                Some(McmtChunk::read_le(&mut std::io::Cursor::new(data))?)
+            } else {
+                None
+            }
+        };
 
         // ofs_refs is shared: it names MCRF, or MCRD/MCRW when the chunk has no MCRF
         // (Cataclysm+). Only a sub-chunk that really is MCRF is read as MCRF.
@@ -390,10 +395,25 @@ impl McnkChunk {
             None
         };
 
-        // MCDD has no dedicated offset in MCNK header
-        // Found via chunk discovery in root ADT files (WoD+)
-        // TODO: Add chunk discovery support for MCDD
-        let doodad_disable = None;
+        // MCDD has no dedicated offset in MCNK header: located by its magic
+        let doodad_disable = {
+            let data = scan_for_subchunk(reader, mcnk_start_offset, mcnk_size, ChunkId::MCDD)?;
+            if !data.is_empty() {
+                Some(McddChunk::read_le(&mut std::io::Cursor::new(data))?)
+            } else {
+                None
+            }
+        };
+
+        // MCBB has no dedicated offset in MCNK header: located by its magic
+        let blend_batches = {
+            let data = scan_for_subchunk(reader, mcnk_start_offset, mcnk_size, ChunkId::MCBB)?;
+            if !data.is_empty() {
+                Some(McbbChunk::read_le(&mut std::io::Cursor::new(data))?)
+            } else {
+                None
+            }
+        };
 
         Ok(Self {
             header,
@@ -411,7 +431,7 @@ impl McnkChunk {
             sound_emitters,
             liquid,
             doodad_disable,
-            blend_batches: None, // TODO: Parse MCBB from chunk discovery
+            blend_batches,
         })
     }
 
@@ -621,10 +641,9 @@ fn scan_for_subchunk<R: Read + Seek>(
         // Read potential chunk header
         let subchunk_header = match ChunkHeader::read_le(reader) {
             Ok(h) => h,
-            Err(_) => {
-                pos += 1;
-                continue;
-            }
+            // No complete header left in the stream (the default `mcnk_size` of
+            // `parse_with_offset` can exceed it): nothing further can be found
+            Err(_) => break,
         };
 
         if subchunk_header.id == target_id {
